@@ -1327,6 +1327,24 @@ class Sim:
         cargs = [f, items[k]] if isinstance(f, Closure) else [items[k]]
         return self._inline_multi(fn, env, bb, t, path, depth, ff, cargs, after)
 
+    def _position_items(self, fn, env, bb, t, path, depth, cont, items, k, f):
+        """Iterator::position over the remaining items of a known array / slice iterator."""
+        if k >= len(items):
+            return [cont(Adt("std::option::Option", 0, []), path, env)]
+        ff = self.find_fn(f.path)
+        if ff is None or depth >= self.max_depth:
+            return [cont(UNK, path, env)]
+
+        def after(rv, sp, e, tr):
+            if not isinstance(rv, int):
+                return [cont(UNK, sp, e)]
+            if rv == 1:
+                return [cont(Adt("std::option::Option", 1, [k]), sp, e)]
+            return self._position_items(fn, e, bb, t, sp, depth, cont, [tr(x) for x in items], k + 1, tr(f))
+
+        cargs = [f, items[k]] if isinstance(f, Closure) else [items[k]]
+        return self._inline_multi(fn, env, bb, t, path, depth, ff, cargs, after)
+
     def _fold(self, fn, env, bb, t, path, depth, cont, items, k, acc, f):
         """Iterator::fold over the remaining items of a known array / slice iterator."""
         if k >= len(items):
@@ -1403,6 +1421,12 @@ class Sim:
             nf = self._local_next(substs[0]) if substs else None
             if nf is not None:
                 return self._find_map(fn, env, bb, t, path, depth, cont, args[0], f, nf, 0)
+        if p == "std::iter::Iterator::position" and isinstance(f, (Closure, FnItem)) and isinstance(x, Adt) \
+                and x.adt == "sim::SliceIter":
+            seq, i = x.fields[0], x.fields[1]
+            elems = list(seq.b if isinstance(seq, Bytes) else seq.fields)[i:]
+            items = [e if len(x.fields) > 2 else Ref([e], 0, ()) for e in elems]
+            return self._position_items(fn, env, bb, t, path, depth, cont, items, 0, f)
         if p in ("std::iter::Iterator::all", "std::iter::Iterator::any") and isinstance(f, (Closure, FnItem)) \
                 and isinstance(x, Adt) and x.adt == "sim::SliceIter":
             seq, i = x.fields[0], x.fields[1]
@@ -1508,9 +1532,9 @@ class Sim:
             return ("value", Adt("sim::Vec", 0, [Tup([])]))
         # a vector with known elements (`sim::Vec`, built by a rule): length, indexing, checked access, iteration
         is_vec = bool(d) and isinstance(d[0], Adt) and d[0].adt == "sim::Vec"
-        if is_vec or (d and isinstance(d[0], Tup) and "<impl [T]>::" in p):
+        if is_vec or (d and isinstance(d[0], (Tup, Bytes)) and "<impl [T]>::" in p):
             tup = d[0].fields[0] if is_vec else d[0]
-            items = tup.fields
+            items = tup.b if isinstance(tup, Bytes) else tup.fields
             last = p.rsplit("::", 1)[-1].split("::<")[0]
             if last == "len" and len(d) == 1:
                 return ("value", len(items))
@@ -1623,6 +1647,19 @@ class Sim:
             if 0 <= lo <= hi <= len(d[0].b):
                 return ("value", Bytes(list(d[0].b[lo:hi])))
             return ("panic", "slice index out of range")
+        # the same with a range value built at run time: `&bytes[start..self.index]`, `&bytes[start..]`, `&bytes[..n]`
+        if has("std::ops::Index::index", "std::ops::IndexMut::index_mut") and len(d) == 2 and isinstance(d[0], (Bytes, Tup)) \
+                and isinstance(d[1], Adt) and d[1].adt in ("std::ops::Range", "std::ops::RangeFrom", "std::ops::RangeTo",
+                                                             "std::ops::RangeFull"):
+            seq = d[0].b if isinstance(d[0], Bytes) else d[0].fields
+            fsr = d[1].fields
+            kind = d[1].adt.rsplit("::", 1)[1]
+            lo = fsr[0] if kind in ("Range", "RangeFrom") else 0
+            hi = fsr[1] if kind == "Range" else (fsr[0] if kind == "RangeTo" else len(seq))
+            if isinstance(lo, int) and isinstance(hi, int):
+                if 0 <= lo <= hi <= len(seq):
+                    return ("value", Bytes(list(seq[lo:hi])) if isinstance(d[0], Bytes) else Tup(list(seq[lo:hi])))
+                return ("panic", "slice index out of range")
         if has("std::iter::IntoIterator::into_iter") and d and (c.get("resolved") or "").startswith("<I as std::iter::IntoIterator>"):
             # the blanket `impl<I: Iterator> IntoIterator for I`: the iterator itself
             return ("value", args[0])
